@@ -449,7 +449,11 @@ class HeaderPacketReceiver(Elaboratable):
         #
         # Link command generation.
         #
-        m.submodules.lc_generator = lc_generator = LinkCommandGenerator()
+        # The generator is reset whenever the link goes down or a USB reset arrives: a link command still
+        # in flight at that point must not be completed once the link is up again -- it would go out ahead
+        # of our sequence number advertisement and, completing in SEND_ACKS, be taken for it.
+        lc_generator = LinkCommandGenerator()
+        m.submodules.lc_generator = ResetInserter({"ss": link_reset})(lc_generator)
         m.d.comb += [
             self.source             .stream_eq(lc_generator.source),
             self.link_command_sent  .eq(lc_generator.done),
